@@ -1744,7 +1744,22 @@ fn wrap_point_case(r: &Recipe) -> Case {
         2 => 20 + (r.b % 30) as usize,
         _ => (r.b % 800) as usize,
     };
-    let point = d.len() as i64 + (r.b >> 16) as i64 % 61 - 30;
+    // decimal point: near the digits, or anywhere in (and beyond) the finite range of either format
+    let point = match r.sel[6] % 4 {
+        0 | 1 => d.len() as i64 + (r.b >> 16) as i64 % 61 - 30,
+        2 => (r.b >> 16) as i64 % 720 - 360,
+        _ => {
+            let edges: [i64; 10] = [309, 310, 330, 39, 40, -323, -345, -44, -60, 400];
+            edges[((r.b >> 16) % 10) as usize] + d.len() as i64 * ((r.b >> 24) % 2) as i64
+        }
+    };
+    // more digits after the wrap point (so that a 20-digit accumulation is followed by truncated digits)
+    if r.sel[5] % 3 == 0 {
+        d.extend(stretch_digits(r, 1 + (r.k[2] as usize) % 30, 0x77));
+        if d.last() == Some(&0) {
+            *d.last_mut().unwrap() = 3;
+        }
+    }
     d.extend(std::iter::repeat(0).take(zeros));
     let allow = d.last() == Some(&0);
     let (int, frac, exp, lay) = layout(&d, point, r.sel[4], r.k[0], allow);
